@@ -7,6 +7,26 @@ From TK Require Import Tsne_Model Tsne_PerpRed_Model.
 Import ListNotations.
 Local Open Scope Q_scope.
 
+(* kernel conversion hint (as in Tsne_Proof_Perp.v): unfold the searches, not the 200-step fixpoints *)
+Strategy expand [perp_search perp_search_r].
+
+Lemma red2_pos_correct : forall n d,
+  (Zpos n * Zpos (snd (red2_pos n d)) = Zpos (fst (red2_pos n d)) * Zpos d)%Z.
+Proof.
+  induction n as [n IH|n IH|]; intros d; cbn [red2_pos fst snd]; try reflexivity.
+  destruct d as [d|d|]; cbn [fst snd]; try reflexivity.
+  specialize (IH d). rewrite (Pos2Z.inj_xO n), (Pos2Z.inj_xO d). lia.
+Qed.
+
+Lemma Qred2_correct : forall q, Qred2 q == q.
+Proof.
+  intros [n d]. unfold Qred2, Qeq. cbn [Qnum Qden]. destruct n as [|n|n].
+  - reflexivity.
+  - pose proof (red2_pos_correct n d) as H. destruct (red2_pos n d) as [n' d']. cbn [Qnum Qden fst snd] in *. lia.
+  - pose proof (red2_pos_correct n d) as H. destruct (red2_pos n d) as [n' d']. cbn [Qnum Qden fst snd] in *.
+    rewrite <- !Pos2Z.opp_pos. lia.
+Qed.
+
 Definition ev_eq (a b : evalr) : Prop :=
   e_beta a == e_beta b /\ Forall2 Qeq (e_row a) (e_row b) /\ e_sum a == e_sum b /\ e_H a == e_H b.
 
@@ -38,19 +58,19 @@ Section Equiv.
   Qed.
 
   Lemma sum_eq : forall P P', Forall2 Qeq P P' -> forall a a', a == a' ->
-    fold_left (fun a p => Qred (a + p)) P a == fold_left Qplus P' a'.
+    fold_left (fun a p => Qred2 (a + p)) P a == fold_left Qplus P' a'.
   Proof.
     induction 1 as [|p p' P P' Hp HF IH]; intros a a' Ha; cbn [fold_left]; [exact Ha|].
-    apply IH. rewrite Qred_correct, Hp, Ha. reflexivity.
+    apply IH. rewrite Qred2_correct, Hp, Ha. reflexivity.
   Qed.
 
   Lemma H0_eq : forall dd P P', Forall2 Qeq P P' -> forall b b' h h', b == b' -> h == h' ->
-    fold_left (fun h xp => Qred (h + b * (fst xp * snd xp))) (combine dd P) h
+    fold_left (fun h xp => Qred2 (h + b * (fst xp * snd xp))) (combine dd P) h
     == fold_left (fun h xp => h + b' * (fst xp * snd xp)) (combine dd P') h'.
   Proof.
     induction dd as [|x r IH]; intros P P' HF b b' h h' Hb Hh; cbn [combine fold_left]; [exact Hh|].
     destruct HF as [|p p' P P' Hp HF]; cbn [combine fold_left]; [exact Hh|].
-    apply IH; [exact HF | exact Hb |]. cbn [fst snd]. rewrite Qred_correct, Hb, Hh, Hp. reflexivity.
+    apply IH; [exact HF | exact Hb |]. cbn [fst snd]. rewrite Qred2_correct, Hb, Hh, Hp. reflexivity.
   Qed.
 
   Lemma evaluate_r_eq : forall self dd b b', b == b' ->
@@ -60,13 +80,13 @@ Section Equiv.
     pose proof (kernel_from_eq dd 0 self b b' Hb) as HK. fold (kernel_row expf dbl_min self b dd) in HK.
     fold (kernel_row expf dbl_min self b' dd) in HK.
     set (P := kernel_row expf dbl_min self b dd) in *. set (P' := kernel_row expf dbl_min self b' dd) in *.
-    assert (HS : fold_left (fun a p => Qred (a + p)) P (Qred dbl_min) == fold_left Qplus P' dbl_min)
-      by (apply sum_eq; [exact HK | apply Qred_correct]).
-    assert (HH : fold_left (fun h xp => Qred (h + b * (fst xp * snd xp))) (combine dd P) 0
+    assert (HS : fold_left (fun a p => Qred2 (a + p)) P (Qred2 dbl_min) == fold_left Qplus P' dbl_min)
+      by (apply sum_eq; [exact HK | apply Qred2_correct]).
+    assert (HH : fold_left (fun h xp => Qred2 (h + b * (fst xp * snd xp))) (combine dd P) 0
                  == fold_left (fun h xp => h + b' * (fst xp * snd xp)) (combine dd P') 0)
       by (apply H0_eq; [exact HK | exact Hb | reflexivity]).
     split; [exact Hb|]. split; [exact HK|]. split; [exact HS|].
-    rewrite Qred_correct, HH, (logf_proper _ _ HS), HS. reflexivity.
+    rewrite Qred2_correct, HH, (logf_proper _ _ HS), HS. reflexivity.
   Qed.
 
   Lemma good_eq : forall lp ev ev', ev_eq ev ev' -> good tol lp ev = good tol lp ev'.
@@ -83,12 +103,12 @@ Section Equiv.
     rewrite E. destruct (Qltb 0 (e_H ev' - lp)).
     - destruct mx as [m|], mx' as [m'|]; cbn [oq_eq] in Hmx; try contradiction;
         unfold st_eq; cbn [fst snd oq_eq]; (split; [|split]); try assumption; try exact I.
-      + rewrite Qred_correct, Hb, Hmx. reflexivity.
-      + rewrite Qred_correct, Hb. reflexivity.
+      + rewrite Qred2_correct, Hb, Hmx. reflexivity.
+      + rewrite Qred2_correct, Hb. reflexivity.
     - destruct mn as [m|], mn' as [m'|]; cbn [oq_eq] in Hmn; try contradiction;
         unfold st_eq; cbn [fst snd oq_eq]; (split; [|split]); try assumption; try exact I.
-      + rewrite Qred_correct, Hb, Hmn. reflexivity.
-      + rewrite Qred_correct, Hb. reflexivity.
+      + rewrite Qred2_correct, Hb, Hmn. reflexivity.
+      + rewrite Qred2_correct, Hb. reflexivity.
   Qed.
 
   Theorem perp_loop_r_equiv : forall fuel self dd perp st st' last last',
@@ -108,8 +128,9 @@ Section Equiv.
   Theorem perp_search_r_equiv_thm : forall self dd perp,
     res_eq (perp_search_r expf logf dbl_min tol self dd perp) (perp_search expf logf dbl_min tol self dd perp).
   Proof.
-    intros. unfold perp_search_r, perp_search. apply perp_loop_r_equiv; [|exact I].
-    unfold st_eq. cbn. repeat split; reflexivity.
+    intros self dd perp.
+    assert (Hst : st_eq (1, None, None) (1, None, None)) by (unfold st_eq; cbn [fst snd oq_eq]; repeat split; reflexivity).
+    exact (perp_loop_r_equiv 200 self dd perp (1, None, None) (1, None, None) None None Hst I).
   Qed.
 
   (* what the driver prints: found, beta and the normalised row — against Tsne_Model.perp_row *)
@@ -121,14 +142,17 @@ Section Equiv.
     | _, _ => False
     end.
   Proof.
-    intros self dd perp. unfold perp_row_r, perp_row. cbn [fst snd].
-    destruct (perp_search_r_equiv_thm self dd perp) as (Hf & Ho). split; [exact Hf|].
-    destruct (snd (perp_search_r expf logf dbl_min tol self dd perp)) as [ev|],
-             (snd (perp_search expf logf dbl_min tol self dd perp)) as [ev'|]; cbn [oev_eq option_map] in *;
-      try contradiction; [|exact I].
+    intros self dd perp.
+    pose proof (perp_search_r_equiv_thm self dd perp) as H.
+    unfold perp_row_r, perp_row.
+    set (r := perp_search_r expf logf dbl_min tol self dd perp) in *.
+    set (r' := perp_search expf logf dbl_min tol self dd perp) in *.
+    clearbody r r'. destruct r as [b o], r' as [b' o']. destruct H as (Hf & Ho). cbn [fst snd] in *.
+    split; [exact Hf|].
+    destruct o as [ev|], o' as [ev'|]; cbn [oev_eq option_map] in *; try contradiction; [|exact I].
     destruct Ho as (_ & HR & HS & _). unfold normalised.
     induction HR as [|p p' P P' Hp HF IHF]; cbn [map]; constructor; [|exact IHF].
-    rewrite Qred_correct, Hp, HS. reflexivity.
+    rewrite Qred2_correct, Hp, HS. reflexivity.
   Qed.
 End Equiv.
 
